@@ -3,6 +3,7 @@ package checks
 import (
 	"fmt"
 	"strings"
+	"time"
 
 	tq "github.com/facebookincubator/tacquito"
 	"github.com/facebookincubator/tacquito/cmds/server/config"
@@ -63,6 +64,7 @@ func runC07(b *mon.B) {
 			continue
 		}
 		ref.Net.SetKeepLog(false)
+		ref.Net.Watchdog = 20 * time.Second
 		for k := 0; k < perCfg; k++ {
 			caseNo++
 			scope := sc.Scopes[r.Intn(len(sc.Scopes))]
@@ -74,7 +76,8 @@ func runC07(b *mon.B) {
 			walk := k%40 == 7 // one session walked up to 255 by jumping
 			rogue := ""
 			if r.Chance(1, 4) {
-				rogue = r.PickS("even", "replay", "bad-major", "bad-minor", "bad-type", "seq0", "oversize", "decrease", "after-255", "after-255")
+				rogue = r.PickS("even", "replay", "bad-major", "bad-minor", "bad-type", "seq0", "oversize", "decrease", "after-255", "after-255",
+					"pipelined-even", "pipelined-bad-type", "pipelined-bad-major", "pipelined-oversize")
 			}
 			order := interleave(r, recs)
 			if !b.Want(caseNo) {
@@ -96,7 +99,12 @@ func runC07(b *mon.B) {
 			play := func(label string, kind string, h rfc8907.Header, body []byte, wf bool) {
 				res := rc.send(h, body, wf)
 				if res.Err != nil {
-					b.Inconclusive("case %d: %v", caseNo, res.Err)
+					if frame := stuckServerFrame(); frame != "" {
+						b.Violate(caseNo, "C07/server-stuck-processing-request/"+frame, fmt.Sprintf("%s [%s]: %v after the request was delivered the server neither went back to reading nor closed the connection; a server goroutine is parked on a lock in %s", label, res.Verdict, ref.Net.Watchdog, frame),
+							map[string]interface{}{"request_header": hexs(h.Encode()), "verdict": res.Verdict})
+					} else {
+						b.Inconclusive("case %d: %v", caseNo, res.Err)
+					}
 					dead = true
 					return
 				}
@@ -170,6 +178,45 @@ func runC07(b *mon.B) {
 					}
 					h.Seq = r.Pick(1, 3, 253, 255)
 					body = bAuthenContinue(0, sc.Users["alice"].Password, "")
+				case "pipelined-even", "pipelined-bad-type", "pipelined-bad-major", "pipelined-oversize":
+					// a valid request and a rejected one arrive in the same segment: the valid one
+					// still gets its reply before the connection is closed
+					good := pktSpec{H: rfc8907.Header{Major: 0xc, Type: 2, Seq: 1, Session: r.U32()}, Clear: bAuthorRequest(6, 1, 1, 1, "alice", "p", "r", "service=shell", "cmd=show", "cmd-arg=version")}.wire(rc.key)
+					bad := rfc8907.Header{Major: 0xc, Type: 1, Seq: 1, Session: r.U32()}
+					badBody := bAuthenStart(1, 1, 1, 1, "alice", "p", "r", "")
+					switch rogue {
+					case "pipelined-even":
+						bad.Seq = 2
+					case "pipelined-bad-type":
+						bad.Type = 7
+					case "pipelined-bad-major":
+						bad.Major = 0xd
+					}
+					var second []byte
+					if rogue == "pipelined-oversize" {
+						bad.Length = 1 << 20
+						second = bad.Encode()
+					} else {
+						second = pktSpec{H: bad, Clear: badBody}.wire(rc.key)
+					}
+					before := ref.Tap.Count()
+					rc.c.Feed(append(append([]byte{}, good...), second...))
+					st, werr := rc.c.WaitQuiescent()
+					raws, stray := rc.c.TakePackets()
+					n := 0
+					for _, iv := range ref.Tap.Since(before) {
+						if iv.Conn == rc.c.ID {
+							n++
+						}
+					}
+					b.Class("rogue/%s", rogue)
+					switch {
+					case werr != nil:
+						b.Inconclusive("pipelined case: %v", werr)
+					case n != 1 || len(raws) != 1 || stray != 0 || !st.Closed:
+						b.Violate(caseNo, "C07/pipelined-rejection/"+rogue, fmt.Sprintf("a valid request followed in the same segment by a rejected one (%s): %d handler entries, %d reply packets (+%d stray bytes), closed=%v; expected 1, 1, closed", rogue, n, len(raws), stray, st.Closed), nil)
+					}
+					dead = true
 				case "bad-major":
 					h.Major = r.Pick(0, 0xb, 0xd, 0xf)
 				case "bad-minor":
